@@ -119,6 +119,19 @@ CHECKS = {
         technique="Lean 4 proof (invariant over the import loop) + differential correspondence on real importer database files",
         ref="5/C19",
     ),
+    "C06": dict(
+        text="Theorems (Lean 4, Mathlib matrices over the rationals, any dimension, any admissible tuning): the sigma-point weights sum to one; the weighted "
+             "mean of linearly mapped sigma points is the mapped centre and their weighted cross covariance about the mapped centres is G1 (L L^T) G2^T for any "
+             "factor L (negative centre weight, alpha and beta drop out) - hence pred_x = F x, pred_p = F P F^T + Q, and in redraw mode S = H P- H^T + R, "
+             "C = P- H^T (the Kalman update for any stacked H), in no-redraw mode the documented variant with A = F P F^T; P- - P+ = K S K^T is PSD, P+ is symmetric, and by the Joseph "
+             "form PSD whenever prior and noise are. Tied to the code by running the real UnscentedKalmanFilter on mock linear dynamics/measurements "
+             "(1-8 states, stacked observations incl. totals equal to 2n+1, four tunings, multi-step observed/unobserved/forecast-then-missed patterns) against "
+             "the executable model and an exact rational Kalman filter.",
+        note=BASE_TB + "numpy cholesky/inv/sqrt are oracle inputs; tolerances scale with the measured conditioning of the exact reference (capped at 1e-4); the list-matrix "
+             "executable model and the Mathlib statements are the same formulas written twice.",
+        technique="Lean 4 proof (matrix algebra) + differential correspondence with the real UKF on linear systems against an exact Kalman filter",
+        ref="5/C06",
+    ),
 }
 
 PLANNED = {}
